@@ -1,8 +1,58 @@
-(** C14 - re-framing is exact. *)
-From Muxide Require Export Model.Base Model.Annexb Spec.NalSplit Proofs.TableProofs.
+(** C14 - re-framing (Annex B -> length-prefixed NALs, ADTS -> raw AAC) is exact.
+    Statements only; proofs live in Proofs/. *)
+From Muxide Require Export Model.Base Model.Annexb Model.Adts Spec.NalSplit
+  Proofs.TableProofs Proofs.AnnexbProofs Proofs.AdtsProofs.
 Open Scope N_scope.
+
+(* the scanner's iterator yields exactly the declaratively defined units, for every byte string *)
+Theorem C14_iterator_is_declarative_split : forall d : bytes, nal_iter d = spec_units d.
+Proof. exact nal_iter_is_spec_units. Qed.
+Print Assumptions C14_iterator_is_declarative_split.
+
+(* the converted sample parses exactly to its end as 4-byte length-prefixed units whose
+   payloads are the non-empty declarative units (whole input when there is none) *)
+Theorem C14_annexb_to_avcc_exact :
+  forall d : bytes, len d < 4294967296 -> check_reframe d (annexb_to_avcc d) = true.
+Proof. exact annexb_to_avcc_is_spec. Qed.
+Print Assumptions C14_annexb_to_avcc_exact.
+
+Theorem C14_hevc_annexb_to_hvcc_exact :
+  forall d : bytes, len d < 4294967296 -> check_reframe d (hevc_annexb_to_hvcc d) = true.
+Proof. exact hevc_annexb_to_hvcc_is_spec. Qed.
+Print Assumptions C14_hevc_annexb_to_hvcc_exact.
 
 Theorem C14_length_prefixed_units_parse_back :
   forall nals, Forall (fun n => len n < 4294967296) nals -> parse_len4 (len_prefixed nals) = Some nals.
 Proof. exact parse_len4_len_prefixed. Qed.
 Print Assumptions C14_length_prefixed_units_parse_back.
+
+(* ADTS: accept/reject decision = declarative header validity; accepted payload = declared slice *)
+Theorem C14_adts_decision_and_payload : forall f : bytes, bytes_ok f = true ->
+  match adts_to_raw f with
+  | AdtsOk raw => spec_adts_payload f = Some raw
+  | AdtsErr _ => spec_adts_payload f = None
+  end.
+Proof. exact adts_to_raw_is_spec. Qed.
+Print Assumptions C14_adts_decision_and_payload.
+
+Theorem C14_adts_payload_is_the_declared_slice : forall f raw, bytes_ok f = true ->
+  adts_to_raw f = AdtsOk raw ->
+  exists hdr fl, adts_valid_header f = Some (hdr, fl) /\
+                 (hdr = 7 \/ hdr = 9) /\ hdr < fl /\ fl <= len f /\
+                 raw = take (fl - hdr) (drop hdr f) /\ len raw = fl - hdr.
+Proof. exact adts_payload_is_the_declared_slice. Qed.
+Print Assumptions C14_adts_payload_is_the_declared_slice.
+
+(* non-vacuity: a concrete access unit with 3- and 4-byte start codes, leading junk,
+   an empty unit and trailing zeros meets the hypotheses and is split as expected *)
+Example C14_nonvacuous :
+  let d := [9; 0; 0; 0; 1; 103; 66; 0; 0; 1; 0; 0; 1; 101; 136; 0; 0; 0] in
+  len d < 4294967296 /\
+  spec_payloads d = [[103; 66]; [101; 136; 0; 0; 0]] /\
+  annexb_to_avcc d = [0; 0; 0; 2; 103; 66; 0; 0; 0; 5; 101; 136; 0; 0; 0].
+Proof. vm_compute. repeat split; reflexivity. Qed.
+
+Example C14_adts_nonvacuous :
+  let f := [255; 241; 76; 128; 1; 63; 252; 170; 187] in
+  bytes_ok f = true /\ adts_to_raw f = AdtsOk [170; 187].
+Proof. vm_compute. split; reflexivity. Qed.
